@@ -34,7 +34,7 @@ pub fn plan(p: &EpParams) -> Plan {
     Plan {
         episodes: n,
         exhaustive: false,
-        rule: "multi-thread runtime (6 workers, real clock): 300-1200 registered push subscriptions, the push loop ticking every 1-3 ms, 3-5 clients each issuing calls for 150 ms (quick) / 400 ms (thorough) of wall time, drawn from CreateSubscription(push) / GetSubscription / DeleteSubscription / ListSubscriptions / Pull(return_immediately) / Publish / Acknowledge, and on the topic map (40 topics + a pool of 4 names) ListTopics / CreateTopic / DeleteTopic / GetTopic / ListTopicSubscriptions. Oracle: completed-call counter watched from a non-worker thread; no completion for 15 s of wall time while calls are outstanding = violation, not done after 90 s = inconclusive. Non-trivial: push subscriptions were created while the loop was ticking (registry walked at least 20 times during the client phase). Distinct: (registered, interval, clients, calls per kind).".into(),
+        rule: "multi-thread runtime (6 workers, real clock): 300-1200 registered push subscriptions, the push loop ticking every 1-3 ms, 3-5 clients each issuing calls for 150 ms (quick) / 400 ms (thorough) of wall time, drawn from CreateSubscription(push) / GetSubscription / DeleteSubscription / ListSubscriptions / Pull(return_immediately) / Publish / Acknowledge, and on the topic map (40 topics + a pool of 4 names) ListTopics / CreateTopic / DeleteTopic / GetTopic / ListTopicSubscriptions. Oracle: completed-call counter watched from a non-worker thread; no completion for 15 s of wall time while calls are outstanding, and none in another 15 s after the monitor has stopped the push loop = violation (blocked threads); calls that complete once the loop is stopped were buried under push rounds on a busy machine = inconclusive; not done after 90 s = inconclusive. Non-trivial: push subscriptions were created while the loop was ticking (registry walked at least 20 times during the client phase). Distinct: (registered, interval, clients, calls per kind).".into(),
     }
 }
 
@@ -43,11 +43,14 @@ struct Shared {
     outstanding: AtomicU64,
     done: AtomicBool,
     last_calls: Mutex<Vec<String>>,
+    /// the push loop task of the running episode (the monitor stops it to tell overload from blockage)
+    push_abort: Mutex<Option<tokio::task::AbortHandle>>,
 }
 
 pub fn run(p: &EpParams) -> EpReport {
     let rt = episode_runtime(p.ep_seed, false, true, 6);
-    let shared = Arc::new(Shared { completed: AtomicU64::new(0), outstanding: AtomicU64::new(0), done: AtomicBool::new(false), last_calls: Mutex::new(vec![]) });
+    let shared = Arc::new(Shared { completed: AtomicU64::new(0), outstanding: AtomicU64::new(0), done: AtomicBool::new(false), last_calls: Mutex::new(vec![]), push_abort: Mutex::new(None) });
+    crate::LIVELOCK_OFF.store(true, Ordering::SeqCst);
     let (tx, rx) = std::sync::mpsc::channel::<EpReport>();
     let p2 = p.clone();
     let sh = shared.clone();
@@ -57,9 +60,15 @@ pub fn run(p: &EpParams) -> EpReport {
     });
     let t0 = std::time::Instant::now();
     let mut last = (shared.completed.load(Ordering::SeqCst), std::time::Instant::now());
+    let mut overloaded = false;
     let rep = loop {
         match rx.recv_timeout(Duration::from_millis(200)) {
-            Ok(rep) => break rep,
+            Ok(mut rep) => {
+                if overloaded {
+                    rep.inconclusive("c07p: client calls made no progress for 15 s of wall time and completed once the push loop was stopped (run queue buried under push rounds on a busy machine): not a verdict");
+                }
+                break rep;
+            }
             Err(std::sync::mpsc::RecvTimeoutError::Disconnected) => {
                 let mut rep = EpReport::default();
                 rep.inconclusive("c07p: the episode task ended without a report (panicked?)");
@@ -70,6 +79,29 @@ pub fn run(p: &EpParams) -> EpReport {
                 if c != last.0 {
                     last = (c, std::time::Instant::now());
                 } else if last.1.elapsed().as_secs() >= STALL_S && shared.outstanding.load(Ordering::SeqCst) > 0 {
+                    // Blocked, or buried? The push loop spawns a pull per registered subscription per
+                    // tick without waiting for the last round; on a machine that is busy elsewhere the
+                    // run queue can grow faster than it drains, and a client call then waits behind it
+                    // for as long as the loop keeps ticking. Stop the loop: a buried call completes
+                    // once the queue has drained, a call behind a blocked thread does not (a thread
+                    // blocked on a lock is not freed by aborting a task).
+                    if let Some(a) = shared.push_abort.lock().unwrap().take() {
+                        a.abort();
+                        let t_stop = std::time::Instant::now();
+                        let mut resumed = false;
+                        while t_stop.elapsed().as_secs() < STALL_S {
+                            std::thread::sleep(Duration::from_millis(200));
+                            if shared.completed.load(Ordering::SeqCst) != c || shared.outstanding.load(Ordering::SeqCst) == 0 {
+                                resumed = true;
+                                break;
+                            }
+                        }
+                        if resumed {
+                            overloaded = true;
+                            last = (shared.completed.load(Ordering::SeqCst), std::time::Instant::now());
+                            continue;
+                        }
+                    }
                     let mut rep = EpReport::default();
                     let calls = shared.last_calls.lock().unwrap().clone();
                     let mut kinds: Vec<String> = calls.iter().map(|c| c.split(' ').next().unwrap_or("").to_string()).collect();
@@ -99,6 +131,7 @@ pub fn run(p: &EpParams) -> EpReport {
         }
     };
     shared.done.store(true, Ordering::SeqCst);
+    crate::LIVELOCK_OFF.store(false, Ordering::SeqCst);
     // blocked worker threads (if any) must not block the shard
     rt.shutdown_background();
     rep
@@ -126,6 +159,7 @@ async fn episode(p: &EpParams, sh: Arc<Shared>) -> EpReport {
     let interval_ms = rng.range(1, 3);
     let walks_before = hook_total();
     let push_loop = tokio::spawn(w.app.push_loop(Duration::from_millis(interval_ms)).run());
+    *sh.push_abort.lock().unwrap() = Some(push_loop.abort_handle());
 
     let n_clients = rng.range(3, 5) as u32;
     let mut handles = vec![];
